@@ -1,3 +1,3 @@
 From MptV Require Import Base.Mem Cobs.CobsModel Cobs.CobsRun.
 Require Import ExtrOcamlBasic.
-Extraction "cobs_model.ml" crun csrun cinit sinit v_cobs v_cobs_r v_zpe v_zpe_r sdec.
+Extraction "cobs_model.ml" crun csrun cinit sinit v_cobs v_cobs_r v_zpe v_zpe_r sdec FCobs FText.
